@@ -15,6 +15,7 @@ import (
 	"github.com/plgd-dev/go-coap/v3/net/responsewriter"
 	"github.com/plgd-dev/go-coap/v3/pkg/cache"
 	"github.com/plgd-dev/go-coap/v3/pkg/math"
+	"github.com/plgd-dev/go-coap/v3/pkg/verifhook"
 	"golang.org/x/sync/semaphore"
 )
 
@@ -802,6 +803,7 @@ func (b *BlockWise[C]) processReceivedMessage(w *responsewriter.ResponseWriter[C
 	if e := b.receivingMessagesCache.Load(tokenStr); e != nil {
 		cachedReceivedMessageGuard = e.Data()
 	}
+	verifhook.Point("blockwise.processReceivedMessage.afterLoadGuard")
 	if cachedReceivedMessageGuard == nil {
 		szx = getSzx(szx, maxSzx)
 		// if there is no more then just forward req to next handler
